@@ -35,8 +35,16 @@ type Walker struct {
 	offset   int
 	failFast bool
 
+	// nesting of the array value being read
+	depth int
+
 	errors errpos.Errors
 }
+
+// maxValueDepth bounds the nesting of array values. popValue recurses once per
+// '[', so a file of millions of '[' would exhaust the goroutine stack, which
+// ends the process instead of producing a diagnostic.
+const maxValueDepth = 10000
 
 func (w *Walker) addError(err *unexpectedTokenError) {
 	w.errors = append(w.errors, &errpos.Err{
@@ -313,6 +321,11 @@ func (ww *Walker) popValue() (Value, *unexpectedTokenError) {
 
 	if ww.nextType() == LBRACK {
 		opener := ww.popToken()
+		if ww.depth >= maxValueDepth {
+			return Value{}, &unexpectedTokenError{tok: opener, text: fmt.Sprintf("arrays nested more than %d deep", maxValueDepth)}
+		}
+		ww.depth++
+		defer func() { ww.depth-- }()
 
 		if ww.nextType() == RBRACK {
 			ww.popToken()
